@@ -255,7 +255,14 @@ impl Scenario for RawHuge {
         if r.chance(1, 2) {
             src.push(small(&mut r, "last-in-source"));
         }
-        let how = if method == 0 && r.chance(1, 2) { 1 } else { r.pickc(&[0u8, 0, 2]) };
+        // a method the crate cannot decode can only be obtained raw (by_index / by_name refuse it, as C03 says)
+        let how = if method == 0 && r.chance(1, 2) {
+            1
+        } else if !matches!(method, 0 | 8 | 12 | 93) {
+            0
+        } else {
+            r.pickc(&[0u8, 0, 2])
+        };
         let case = RawHugeCase {
             src,
             pick,
